@@ -7,7 +7,7 @@ import gen
 import impl
 import props.c04 as c04
 
-RULE = ("(a) every single-mode library block and random affine probe blocks x random mode lists (1-4 modes) x random "
+RULE = ("(a) every single-mode library block, user-defined models with shuffled rows and ports that carry no pin, and random affine probe blocks x random mode lists (1-4 modes) x random "
         "parameters and sweeps: coefficient between (p,m) and (q,m') vs the single-mode coefficient / zero; (b) random "
         "circuits of mode-expanded probes wired with connect_all over random (partially overlapping) mode sets vs the "
         "single-mode circuit per common mode; (c) base-name / mode-name queries on models and placed structures; "
@@ -209,9 +209,31 @@ def run_connect_all(ctx, circ, msets, rep):
     return True
 
 
+def generic_factories():
+    """user-defined models (`Model(pin_dic, Smatrix)`): non-symmetric matrices, pins on shuffled / non-contiguous rows,
+    ports of the matrix that carry no pin at all"""
+    L = impl.lk()
+    out = {}
+    for nm, (n, rows) in {"Generic:full-shuffled": (3, [2, 0, 1]), "Generic:hidden-port": (3, [0, 1]), "Generic:hidden-first": (4, [3, 1]),
+                          "Generic:gaps": (5, [4, 0, 2])}.items():
+        r = np.random.default_rng(abs(hash(nm)) % (2 ** 31) if False else sum(map(ord, nm)))
+        S = (r.normal(size=(n, n)) + 1j * r.normal(size=(n, n))) * 0.3
+
+        def factory(S=S, rows=rows):
+            return L.Model(pin_dic={L.Pin(f"q{k}"): i for k, i in enumerate(rows)}, Smatrix=S.copy())
+        out[nm] = (factory, {})
+    return out
+
+
+def all_factories():
+    f = dict(c04.block_factories())
+    f.update(generic_factories())
+    return f
+
+
 def run(ctx):
     rng = ctx.subrng("c13")
-    facts = c04.block_factories()
+    facts = all_factories()
     reps = ctx.budget(3, 40)
     for name, (factory, params) in facts.items():
         if name in ("FPRGaussian", "UserWaveguide2m"):
@@ -228,7 +250,7 @@ def run(ctx):
 
 def replay(ctx, data):
     if data["kind"] == "expand":
-        facts = c04.block_factories()
+        facts = all_factories()
         factory, params = facts[data["block"]]
         kw = {k: (np.array(v) if len(v) > 1 else v[0]) for k, v in data["kw"].items()}
         run_expand(ctx, data["block"], factory, data["modes"], kw, data)
